@@ -146,7 +146,10 @@ pub fn check_kf(tc: &TreeCase, st: &mut Stats, tolerate_kf: bool) -> Result<(), 
     if tc.cfg.ctx.is_some() {
         return Err("C06 is about parse_document only (bad case)".into());
     }
-    let (mdom, _, _) = drive(ModelDom::new(), &tc.cfg, &tc.chunks, |_, _, _, _| {});
+    let (mdom, _, _) = drive(ModelDom::for_cfg(&tc.cfg), &tc.cfg, &tc.chunks, |_, _, _, _| {});
+    if !mdom.shadow_hosts.borrow().is_empty() {
+        st.label("declarative shadow root attached");
+    }
     if let Err(e) = skeleton(&ModelView(&mdom), &DOC) {
         if tolerate_kf && is_kf_formatting_after_frameset(&e) {
             st.exclude(KF_AFE_FRAMESET);
